@@ -27,7 +27,7 @@ def corrupt(rng, pkts, level):
         r = bytearray(r)
         p = bytearray(p)
         if rng.random() < level:
-            k = rng.choice(["pages", "stop", "orbit", "prio", "trig", "bc"])
+            k = rng.choice(["pages", "stop", "orbit", "prio", "trig", "bc", "hsize", "hsize", "reserved"])
             if k == "pages":
                 struct.pack_into("<H", r, 36, rng.randrange(6))
             elif k == "stop":
@@ -36,6 +36,10 @@ def corrupt(rng, pkts, level):
                 struct.pack_into("<I", r, 20, rng.randrange(1 << 32))
             elif k == "prio":
                 r[4] = 1
+            elif k == "hsize":
+                r[1] = rng.choice([0x00, 0x20, 0x48, 0x50, 0xFF])        # RDH0 header_size: the header is 64 bytes whatever it claims
+            elif k == "reserved":
+                r[6 + rng.randrange(2)] = rng.randrange(1, 256)          # RDH0 reserved
             elif k == "trig":
                 struct.pack_into("<I", r, 32, rng.choice([0, 0x8000, 0x6A03, 0x4813]))
             else:
@@ -138,6 +142,15 @@ def run(tier, seed):
             per = [[(bytes(bytearray(r[:36]) + struct.pack("<H", rng.randrange(5)) + r[38:]) if rng.random() < l else r, p) for r, p in pk] for pk, l in zip(per, lvl)]
         else:
             per = [corrupt(rng, pk, l) for pk, l in zip(per, lvl)]
+        # the dispatch id is the link id, or the FEE id in stave mode: the OTHER id may coincide between units (two staves read
+        # out over link 0 of two CRUs; one FEE id seen on two links) and must play no role in the routing
+        if s % 2 == 1:
+            for j in range(1, nl):
+                if rng.random() < 0.7:
+                    if stave:
+                        per[j] = [(r[:12] + per[0][0][0][12:13] + r[13:], p) for r, p in per[j]]
+                    else:
+                        per[j] = [(r[:2] + per[0][0][0][2:4] + r[4:], p) for r, p in per[j]]
         ly = layouts(rng, per)
         for name, order in ly.items():
             cd, ranges = place(per, order, start=rng.choice([0, 0x1000]))
